@@ -471,15 +471,24 @@ def Inner.toIndex (pick : Pick) (st : Inner) : Index :=
   ⟨st.moduleInfoBytes, st.files.intoSorted pick.file, st.origins.intoSorted pick.origin,
    syms.map (·.1), syms.map (·.2)⟩
 
-/-- `BreakpadIndexCreatorInner::finish` (index.rs:659-696) -/
-def Inner.finish (pick : Pick) (st : Inner) (endOff : Nat) : Outcome :=
+/-- result of the creator before serialization -/
+inductive Pre
+  | panic
+  | err
+  | ix (i : Index)
+deriving Repr, DecidableEq
+
+/-- `serialize_to_bytes` applied to the creator's index, with its panic condition -/
+def Pre.toOutcome : Pre → Outcome
+  | .panic => .panic
+  | .err => .err
+  | .ix i => if serializeSafe i then .ok (serialize i) else .panic
+
+/-- `BreakpadIndexCreatorInner::finish` (index.rs:659-694) up to the `BreakpadIndex` value -/
+def Inner.pre (pick : Pick) (st : Inner) (endOff : Nat) : Pre :=
   match finishPending st endOff with
   | none => .panic
-  | some st =>
-    if !st.hasModule then .err
-    else
-      let ix := st.toIndex pick
-      if serializeSafe ix then .ok (serialize ix) else .panic
+  | some st => if !st.hasModule then .err else .ix (st.toIndex pick)
 
 /-! ## The creator -/
 
@@ -506,20 +515,23 @@ def Creator.consumeAll (c : Creator) : List (List Byte) → Option Creator
     | none => none
     | some c' => c'.consumeAll rest
 
-/-- `BreakpadIndexCreator::finish` (index.rs:513-519) -/
-def Creator.finish (pick : Pick) (c : Creator) : Outcome :=
+/-- `BreakpadIndexCreator::finish` (index.rs:513-519) up to the `BreakpadIndex` value -/
+def Creator.pre (pick : Pick) (c : Creator) : Pre :=
   match LB.finish c.lb with
   | none => .panic
   | some (tail, endOff) =>
     match processLog c.inner tail with
     | none => .panic
-    | some i => i.finish pick endOff
+    | some i => i.pre pick endOff
 
-/-- the index bytes produced by feeding the chunks in order to a fresh creator -/
-def index (pick : Pick) (chunks : List (List Byte)) : Outcome :=
+/-- the `BreakpadIndex` value a fresh creator computes from the chunks fed in order -/
+def preIndex (pick : Pick) (chunks : List (List Byte)) : Pre :=
   match Creator.init.consumeAll chunks with
   | none => .panic
-  | some c => c.finish pick
+  | some c => c.pre pick
+
+/-- the index bytes produced by feeding the chunks in order to a fresh creator and calling `finish` -/
+def index (pick : Pick) (chunks : List (List Byte)) : Outcome := (preIndex pick chunks).toOutcome
 
 /-! ## `parse_symindex_file` -/
 
@@ -819,9 +831,39 @@ def parsePublic (line : List Byte) : Option (List Byte) :=
 
 /-! ## Lookup (`lookup_sync`, symbol_map.rs:274-371) -/
 
-/-- `binary_search_by_key(&a, key)` followed by `Ok(i) => i, Err(0) => none, Err(i) => i-1` on a slice
-that is sorted by `key`: the number of leading elements with key ≤ a (0 = none, n+1 = index n) -/
-def countLE {α : Type} (le : α → Bool) (l : List α) : Nat := (l.takeWhile le).length
+/-- the loop of `core::slice::binary_search_by` (Rust ≥ 1.82, library/core/src/slice/mod.rs): `size`
+halves, `base` moves to `mid` unless the element there compares `Greater` than the target. Returns the
+final `base`. (`l[mid]?` is always in range; the `none` arm is dead.) -/
+def bsearchBase {α : Type} (gt : α → Bool) (l : List α) (size base : Nat) : Nat :=
+  if 1 < size then
+    let half := size / 2
+    let mid := base + half
+    let base' := match l[mid]? with
+      | some x => if gt x then base else mid
+      | none => base
+    bsearchBase gt l (size - half) base'
+  else base
+termination_by size
+decreasing_by omega
+
+/-- `binary_search_by_key(&t, key)` followed by `Ok(i) => i, Err(0) => return None, Err(i) => i - 1`
+(symbol_map.rs:286-294, index.rs:803-807, 819-826); `gt x` = `key(x) > t`. On a slice sorted by `key`
+this is the index of the last element with `key ≤ t` (`bsearchLE_sorted` in the lemmas); on an unsorted
+slice it is whatever the std algorithm yields, which the model reproduces. -/
+def bsearchLE {α : Type} (gt : α → Bool) (l : List α) : Option Nat :=
+  if l.isEmpty then none else
+  let base := bsearchBase gt l l.length 0
+  match l[base]? with
+  | none => none
+  | some x => if gt x then (if base = 0 then none else some (base - 1)) else some base
+
+/-- `binary_search_by_key(&t, key).ok()` (index.rs:457-461); `eq x` = `key(x) == t` -/
+def bsearchEq {α : Type} (gt eq : α → Bool) (l : List α) : Option Nat :=
+  if l.isEmpty then none else
+  let base := bsearchBase gt l l.length 0
+  match l[base]? with
+  | none => none
+  | some x => if eq x then some base else none
 
 structure Frame where
   function : Option (List Byte)
@@ -845,7 +887,7 @@ deriving Repr, DecidableEq
 /-- `ItemCache::get_string(index).ok()` (symbol_map.rs:209-232) -/
 def getString (lineParser : List Byte → Option (Nat × List Byte)) (text : List Byte)
     (items : List FEntry) (idx : Nat) : Option (List Byte) :=
-  match items.find? (fun e => e.index = idx) with
+  match (bsearchEq (fun e => idx < e.index) (fun e => e.index = idx) items).bind (items[·]?) with
   | none => none
   | some e =>
     match readAt text e.offset e.lineLen with
@@ -857,14 +899,11 @@ def getString (lineParser : List Byte → Option (Nat × List Byte)) (text : Lis
 
 /-- `get_inlinee_at_depth` (index.rs:818-837) -/
 def inlineeAt (inlinees : List Inlinee) (depth addr : Nat) : Option Inlinee :=
-  match countLE (fun i => inlLE i ⟨depth, addr, 0, 0, 0, 0⟩) inlinees with
-  | 0 => none
-  | n + 1 =>
-    match inlinees[n]? with
-    | none => none
-    | some i =>
-      if i.depth ≠ depth then none
-      else if i.address + i.size < pow32 ∧ addr < i.address + i.size then some i else none
+  match (bsearchLE (fun i => !inlLE i ⟨depth, addr, 0, 0, 0, 0⟩) inlinees).bind (inlinees[·]?) with
+  | none => none
+  | some i =>
+    if i.depth ≠ depth then none
+    else if i.address + i.size < pow32 ∧ addr < i.address + i.size then some i else none
 
 /-- the `while let Some(inlinee) = info.get_inlinee_at_depth(depth, address)` loop
 (symbol_map.rs:335-345); fuel = number of inlinees + 1 (every round uses a new depth) -/
@@ -881,14 +920,12 @@ def inlineFrames (text : List Byte) (ix : Index) (info : FuncInfo) (addr : Nat) 
 
 /-- `get_innermost_sourceloc` (index.rs:802-809) -/
 def sourceLoc (lines : List SourceLine) (addr : Nat) : Option SourceLine :=
-  match countLE (fun l => l.address ≤ addr) lines with
-  | 0 => none
-  | n + 1 => lines[n]?
+  (bsearchLE (fun l => addr < l.address) lines).bind (lines[·]?)
 
 def lookup (text : List Byte) (ix : Index) (a : Nat) : Look :=
-  match countLE (· ≤ a) ix.addrs with
-  | 0 => .none
-  | i + 1 =>
+  match bsearchLE (fun x => a < x) ix.addrs with
+  | none => .none
+  | some i =>
     match ix.addrs[i]? with
     | none => .none
     | some symAddr =>
